@@ -22,6 +22,7 @@ struct Inode {
   uint64_t ctime_ns = 0;
   uint32_t mode = 0644;
   uint32_t nlink = 1;
+  bool zeroStat = false;   // stat() of this object returns all-zero fields (exotic file system)
 };
 
 struct Mutation {
